@@ -78,48 +78,36 @@ theorem expandItems_class (L : Loc) (its : List FItem) : ∀ n, expandItems L n 
 
 /-! ### only `ValueError` for class formats -/
 
-/-- invariant of the parsed state while the groups of a class format are read: no timestamp / quarter / weekday; when the
-    format has no 24-hour token (`safe`) the hour is absent or at most 12, otherwise no meridiem was read -/
-def Inv (safe : Bool) (p : Parsed) : Prop :=
-  p.timestamp = none ∧ p.quarter = none ∧ p.day_of_week = none ∧
-  (safe = true → p.hour = none ∨ ∃ n, p.hour = some n ∧ n ≤ 12) ∧ (safe = false → p.meridiem = none)
+/-- invariant of the parsed state while the groups of a class format are read: no timestamp / quarter / weekday -/
+def Inv (p : Parsed) : Prop :=
+  p.timestamp = none ∧ p.quarter = none ∧ p.day_of_week = none
 
-theorem applyGroup_class_kinds (L : Loc) (safe : Bool) (t : NTok) (value : Str) (p : Parsed) (hp : Inv safe p)
-    (h24 : safe = true → t.is24 = false) (hA : safe = false → t.isA = false) :
-    applyGroup L t.str value p = .error "ValueError" ∨ ∃ p', applyGroup L t.str value p = .ok p' ∧ Inv safe p' := by
-  obtain ⟨a1, a2, a3, a4, a5⟩ := hp
-  -- digit kinds that leave hour and meridiem alone
+theorem applyGroup_class_kinds (L : Loc) (t : NTok) (value : Str) (p : Parsed) (hp : Inv p) :
+    applyGroup L t.str value p = .error "ValueError" ∨ ∃ p', applyGroup L t.str value p = .ok p' ∧ Inv p' := by
+  obtain ⟨a1, a2, a3⟩ := hp
+  -- digit kinds
   have dig : ∀ (fk : FKind) (mul : Int), (fk = FKind.year false ∨ fk = FKind.year true ∨ fk = FKind.month ∨ fk = FKind.day
-      ∨ fk = FKind.dayOfYear ∨ fk = FKind.minute ∨ fk = FKind.second ∨ fk = FKind.micro) →
+      ∨ fk = FKind.dayOfYear ∨ fk = FKind.minute ∨ fk = FKind.second ∨ fk = FKind.micro ∨ fk = FKind.hour) →
       applyKind fk (PKind.int mul 0) value p = .error "ValueError"
-        ∨ ∃ p', applyKind fk (PKind.int mul 0) value p = .ok p' ∧ Inv safe p' := by
+        ∨ ∃ p', applyKind fk (PKind.int mul 0) value p = .ok p' ∧ Inv p' := by
     intro fk mul hfk
     cases hi : intOf value with
     | none =>
       left
-      rcases hfk with h|h|h|h|h|h|h|h <;> subst h <;> simp [applyKind, convInt, hi]
+      rcases hfk with h|h|h|h|h|h|h|h|h <;> subst h <;> simp [applyKind, convInt, hi]
     | some n =>
       right
-      rcases hfk with h|h|h|h|h|h|h|h <;> subst h <;> simp [applyKind, convInt, hi, Inv, a1, a2, a3] <;> exact ⟨a4, a5⟩
-  have hour24 : safe = false → (applyKind FKind.hour (PKind.int 1 0) value p = .error "ValueError"
-      ∨ ∃ p', applyKind FKind.hour (PKind.int 1 0) value p = .ok p' ∧ Inv safe p') := by
-    intro hs
-    cases hi : intOf value with
-    | none => left; simp [applyKind, convInt, hi]
-    | some n =>
-      right; simp [applyKind, convInt, hi, Inv, a1, a2, a3]
-      exact ⟨fun h => (by rw [hs] at h; cases h), a5⟩
+      rcases hfk with h|h|h|h|h|h|h|h|h <;> subst h <;> simp [applyKind, convInt, hi, Inv, a1, a2, a3]
   have hour12 : applyKind FKind.hour12 (PKind.int 1 0) value p = .error "ValueError"
-      ∨ ∃ p', applyKind FKind.hour12 (PKind.int 1 0) value p = .ok p' ∧ Inv safe p' := by
+      ∨ ∃ p', applyKind FKind.hour12 (PKind.int 1 0) value p = .ok p' ∧ Inv p' := by
     cases hi : intOf value with
     | none => left; simp [applyKind, convInt, hi]
     | some n =>
       by_cases hn : n > 12
       · left; simp [applyKind, convInt, hi, hn]
       · right; simp [applyKind, convInt, hi, hn, Inv, a1, a2, a3]
-        exact ⟨fun _ => by omega, a5⟩
   have offs : applyKind FKind.offset PKind.str value p = .error "ValueError"
-      ∨ ∃ p', applyKind FKind.offset PKind.str value p = .ok p' ∧ Inv safe p' := by
+      ∨ ∃ p', applyKind FKind.offset PKind.str value p = .ok p' ∧ Inv p' := by
     unfold applyKind
     cases ho : parseOffset value with
     | error e =>
@@ -130,7 +118,7 @@ theorem applyGroup_class_kinds (L : Loc) (safe : Bool) (t : NTok) (value : Str) 
         · simp at ho
         · simp at ho; exact ho.symm
       simp [this]
-    | ok o => right; exact ⟨_, rfl, a1, a2, a3, a4, a5⟩
+    | ok o => right; exact ⟨_, rfl, a1, a2, a3⟩
   cases t
   case YYYY => exact dig (FKind.year false) 1 (by simp)
   case YY => exact dig (FKind.year true) 1 (by simp)
@@ -140,12 +128,8 @@ theorem applyGroup_class_kinds (L : Loc) (safe : Bool) (t : NTok) (value : Str) 
   case D => exact dig FKind.day 1 (by simp)
   case DDDD => exact dig FKind.dayOfYear 1 (by simp)
   case DDD => exact dig FKind.dayOfYear 1 (by simp)
-  case HH => cases safe with
-    | true => simp [NTok.is24] at h24
-    | false => exact hour24 rfl
-  case H => cases safe with
-    | true => simp [NTok.is24] at h24
-    | false => exact hour24 rfl
+  case HH => exact dig FKind.hour 1 (by simp)
+  case H => exact dig FKind.hour 1 (by simp)
   case hh => exact hour12
   case h => exact hour12
   case mm => exact dig FKind.minute 1 (by simp)
@@ -161,20 +145,17 @@ theorem applyGroup_class_kinds (L : Loc) (safe : Bool) (t : NTok) (value : Str) 
   case Z => exact offs
   case ZZ => exact offs
   case A =>
-    cases safe with
-    | false => simp [NTok.isA] at hA
-    | true =>
-      have e : applyGroup L NTok.A.str value p =
-          (if value == L.am.toList then Except.ok { p with meridiem := some false }
-            else if value == L.pm.toList then Except.ok { p with meridiem := some true }
-            else Except.error "ValueError") := rfl
-      rw [e]
-      by_cases c1 : (value == L.am.toList) = true
-      · right; rw [if_pos c1]; exact ⟨_, rfl, a1, a2, a3, a4, fun h => by cases h⟩
-      · rw [if_neg c1]
-        by_cases c2 : (value == L.pm.toList) = true
-        · right; rw [if_pos c2]; exact ⟨_, rfl, a1, a2, a3, a4, fun h => by cases h⟩
-        · left; rw [if_neg c2]
+    have e : applyGroup L NTok.A.str value p =
+        (if value == L.am.toList then Except.ok { p with meridiem := some false }
+          else if value == L.pm.toList then Except.ok { p with meridiem := some true }
+          else Except.error "ValueError") := rfl
+    rw [e]
+    by_cases c1 : (value == L.am.toList) = true
+    · right; rw [if_pos c1]; exact ⟨_, rfl, a1, a2, a3⟩
+    · rw [if_neg c1]
+      by_cases c2 : (value == L.pm.toList) = true
+      · right; rw [if_pos c2]; exact ⟨_, rfl, a1, a2, a3⟩
+      · left; rw [if_neg c2]
 
 theorem groupValues_names : ∀ (its : List FItem) (ns : List Nat) (s : Str),
     ∀ x ∈ groupValues (its.map FItem.toPEl) ns s, ∃ t ∈ toks its, x.1 = t.str := by
@@ -198,10 +179,9 @@ theorem groupValues_names : ∀ (its : List FItem) (ns : List Nat) (s : Str),
         · obtain ⟨t', ht, e⟩ := ih ns _ x h
           exact ⟨t', by simp [toks, ht], e⟩
 
-theorem applyGroups_class_kinds (L : Loc) (safe : Bool) (ts : List NTok)
-    (h24 : safe = true → ∀ t ∈ ts, t.is24 = false) (hA : safe = false → ∀ t ∈ ts, t.isA = false) :
+theorem applyGroups_class_kinds (L : Loc) (ts : List NTok) :
     ∀ (gs : List (String × Str)), (∀ x ∈ gs, ∃ t ∈ ts, x.1 = t.str) →
-    ∀ p, Inv safe p → applyGroups L gs p = .error "ValueError" ∨ ∃ p', applyGroups L gs p = .ok p' ∧ Inv safe p' := by
+    ∀ p, Inv p → applyGroups L gs p = .error "ValueError" ∨ ∃ p', applyGroups L gs p = .ok p' ∧ Inv p' := by
   intro gs
   induction gs with
   | nil => intro _ p hp; right; exact ⟨p, rfl, hp⟩
@@ -211,44 +191,48 @@ theorem applyGroups_class_kinds (L : Loc) (safe : Bool) (ts : List NTok)
     obtain ⟨name, value⟩ := g
     simp only at ht
     subst ht
-    rcases applyGroup_class_kinds L safe t value p hp (fun h => h24 h t htm) (fun h => hA h t htm) with he | ⟨p', hok, hp'⟩
+    rcases applyGroup_class_kinds L t value p hp with he | ⟨p', hok, hp'⟩
     · left; simp [applyGroups, he]
     · simp only [applyGroups, hok]
       exact ih (fun x hx => hn x (by simp [hx])) p' hp'
 
-/-- `_check_parsed` on a state satisfying the invariant succeeds or raises `ValueError` -/
-theorem checkParsed_kinds (safe : Bool) (p : Parsed) (now : Now) (hp : Inv safe p) :
+/-- `_check_parsed` on a state satisfying the invariant succeeds or raises `ValueError` (whatever hour, minute, second,
+    microsecond and meridiem were read: the repaired meridiem test compares integers only) -/
+theorem checkParsed_kinds (p : Parsed) (now : Now) (hp : Inv p) :
     (∃ r, checkParsed p now = .ok r) ∨ checkParsed p now = .error "ValueError" := by
-  obtain ⟨a1, a2, a3, a4, a5⟩ := hp
-  have hm : p.meridiem = none ∨ ∃ pm, p.meridiem = some pm ∧ (p.hour = none ∨ ∃ n, p.hour = some n ∧ n ≤ 12) := by
-    cases safe with
-    | false => exact Or.inl (a5 rfl)
-    | true =>
-      cases hmm : p.meridiem with
-      | none => exact Or.inl rfl
-      | some pm => exact Or.inr ⟨pm, rfl, a4 rfl⟩
+  obtain ⟨a1, a2, a3⟩ := hp
+  have hm : p.meridiem = none ∨ (∃ pm, p.meridiem = some pm ∧ p.hour = none) ∨
+      ∃ pm n, p.meridiem = some pm ∧ p.hour = some n := by
+    cases hmm : p.meridiem with
+    | none => exact Or.inl rfl
+    | some pm =>
+      cases hh : p.hour with
+      | none => exact Or.inr (Or.inl ⟨pm, rfl, rfl⟩)
+      | some n => exact Or.inr (Or.inr ⟨pm, n, rfl, rfl⟩)
   unfold checkParsed
   simp only [a1, a2, a3]
   cases hdoy : p.day_of_year with
   | none =>
-    rcases hm with m | ⟨pm, m, hh | ⟨n, hh, hn⟩⟩
+    rcases hm with m | ⟨pm, m, hh⟩ | ⟨pm, n, m, hh⟩
     · left; simp [m, bind, Except.bind, pure, Except.pure]
     · right; simp [m, hh, bind, Except.bind, pure, Except.pure, throw, throwThe, MonadExceptOf.throw]
-    · left; simp [m, hh, bind, Except.bind, pure, Except.pure, meridiemTooLate_small n _ _ _ hn]
+    · cases hl : meridiemTooLate n p.minute p.second p.microsecond with
+      | true => right; simp [m, hh, hl, bind, Except.bind, pure, Except.pure, throw, throwThe, MonadExceptOf.throw]
+      | false => left; simp [m, hh, hl, bind, Except.bind, pure, Except.pure]
   | some doy =>
     by_cases hc : (1 ≤ doy ∧ doy ≤ Cal.daysInYear (p.year.getD now.year)) ∧
         1000 ≤ p.year.getD now.year ∧ p.year.getD now.year ≤ 9999
-    · rcases hm with m | ⟨pm, m, hh | ⟨n, hh, hn⟩⟩
+    · rcases hm with m | ⟨pm, m, hh⟩ | ⟨pm, n, m, hh⟩
       · left; simp [m, hc, bind, Except.bind, pure, Except.pure]
       · right; simp [m, hh, hc, bind, Except.bind, pure, Except.pure, throw, throwThe, MonadExceptOf.throw]
-      · left; simp [m, hh, hc, bind, Except.bind, pure, Except.pure, meridiemTooLate_small n _ _ _ hn]
+      · cases hl : meridiemTooLate n p.minute p.second p.microsecond with
+        | true => right; simp [m, hh, hl, hc, bind, Except.bind, pure, Except.pure, throw, throwThe, MonadExceptOf.throw]
+        | false => left; simp [m, hh, hl, hc, bind, Except.bind, pure, Except.pure]
     · right; simp [hc, bind, Except.bind, pure, Except.pure, throw, throwThe, MonadExceptOf.throw]
 
-/-- a 24-hour token and the meridiem token do not occur together (`from_format("13 PM", "HH A")` raises `TypeError`) -/
-def MeridiemSafe (its : List FItem) : Bool := !(toks its).any NTok.is24 || !(toks its).any NTok.isA
-
-/-- for a format of the class and **any** input string, `Formatter.parse` either succeeds or raises `ValueError` -/
-theorem parse_class_kinds (L : Loc) (its : List FItem) (hrep : NoRepeat its = true) (hms : MeridiemSafe its = true)
+/-- for a format of the class (24-hour tokens next to the meridiem token included) and **any** input string,
+    `Formatter.parse` either succeeds or raises `ValueError` -/
+theorem parse_class_kinds (L : Loc) (its : List FItem) (hrep : NoRepeat its = true)
     (time : Str) (now : Now) :
     (∃ r, parseItems L time (its.map FItem.toItem) now = .ok r) ∨
       parseItems L time (its.map FItem.toItem) now = .error "ValueError" := by
@@ -261,23 +245,10 @@ theorem parse_class_kinds (L : Loc) (its : List FItem) (hrep : NoRepeat its = tr
     | none => right; rfl
     | some ns =>
       simp only
-      let safe : Bool := !(toks its).any NTok.is24
-      have h24 : safe = true → ∀ t ∈ toks its, t.is24 = false := by
-        intro hs t ht
-        have : (toks its).any NTok.is24 = false := by simpa [safe] using hs
-        have := (List.any_eq_false.mp this) t ht
-        simpa using this
-      have hA : safe = false → ∀ t ∈ toks its, t.isA = false := by
-        intro hs t ht
-        have h1 : (toks its).any NTok.is24 = true := by simpa [safe] using hs
-        have : (toks its).any NTok.isA = false := by
-          simp only [MeridiemSafe, h1, Bool.not_true, Bool.false_or, Bool.not_eq_true'] at hms; exact hms
-        have := (List.any_eq_false.mp this) t ht
-        simpa using this
-      have hp0 : Inv safe ({} : Parsed) := ⟨rfl, rfl, rfl, fun _ => Or.inl rfl, fun _ => rfl⟩
-      rcases applyGroups_class_kinds L safe (toks its) h24 hA _ (groupValues_names its ns time) {} hp0 with he | ⟨p', hok, hp'⟩
+      have hp0 : Inv ({} : Parsed) := ⟨rfl, rfl, rfl⟩
+      rcases applyGroups_class_kinds L (toks its) _ (groupValues_names its ns time) {} hp0 with he | ⟨p', hok, hp'⟩
       · right; simp [he]
       · simp only [hok]
-        exact checkParsed_kinds safe p' now hp'
+        exact checkParsed_kinds p' now hp'
 
 end Pendulum.Fmt
